@@ -163,19 +163,31 @@ def check(ctx, res) -> None:
             continue
         s_ = ast.unparse(t.ast)
         if isinstance(t.ast, ast.Compare) and isinstance(t.ast.ops[0], ast.NotEq) and rejects(t, "true"):
-            if "__class__" in s_ or s_.count("type(") == 2:
+            if "__class__" in s_:
                 dims["class"] = True
+            elif s_.count("type(") == 2:
+                pass  # scalar type identity, handled below
             elif s_.count("len(") == 2:
                 nlen += 1
             else:
                 dims["scalar"] = True
         if isinstance(t.ast, ast.Call) and call_name(t.ast) == "_match_nodes" and rejects(t, "false"):
             dims["recursive"] += 1
+    # scalar fields must be compared by type identity as well as by value (1 == 1.0 == True in Python)
+    dims["scalar-type"] = False
+    for t in cfg.nodes:
+        if t.kind == "test" and isinstance(t.ast, ast.Compare) and isinstance(t.ast.ops[0], (ast.IsNot, ast.NotEq)) and rejects(t, "true"):
+            l, r_ = t.ast.left, t.ast.comparators[0]
+            if all(isinstance(x, ast.Call) and call_name(x) == "type" and len(x.args) == 1 for x in (l, r_)) \
+                    and "__class__" not in ast.unparse(t.ast):
+                names = {ast.unparse(x.args[0]) for x in (l, r_)}
+                if len(names) == 2 and not any("expected" in n_ or n_ == "node" for n_ in names):
+                    dims["scalar-type"] = True
     dims["child-count"] = nlen >= 1
     dims["list-length"] = nlen >= 2
     missing = [k for k, v in dims.items() if not v or (k == "recursive" and v < 2)]
     res.add("R19.3", "_match_nodes|rejecting-exits", not missing, mn.where,
-            "rejecting exits exist for class, child count, list length, scalar value and both recursive comparisons" if not missing else
+            "rejecting exits exist for class, child count, list length, scalar type identity, scalar value and both recursive comparisons" if not missing else
             f"_ASTMatcher._match_nodes has no rejecting exit for: {missing} -- structurally different code is reported as a match",
             dims={k: (v if not isinstance(v, bool) else v) for k, v in dims.items()})
     # the generic 'return expected == node' for non-AST values and final accept
